@@ -56,6 +56,29 @@ def _range_of(fa, S, e):
     return None
 
 
+def _enum_range(E, fa, op):
+    """(0, len(X)) when the operand is the index of `for (i, x) in X.iter().enumerate()` with no
+    windowing adaptor (skip/take/rev/filter/step_by) in the chain, else None."""
+    from r_viterbi import iter_index_operand
+    o = fa.origin(op)
+    if o[0] != "place" or o[1].root[0] != "call":
+        return None
+    proj = [str(x) for x in o[1].proj if str(x) not in ("<some>", "as Some")]
+    if proj not in (["#0"], ["0"], ["0", "#0"], ["#0", "#0"]):
+        return None
+    nt = fa.term(o[1].root[1])
+    if not any(strip_generics(x).endswith("::next") for x in callee_paths(nt)):
+        return None
+    info = iter_index_operand(E, fa, nt["args"][0])
+    if not info or info.get("index") is not None or "enumerate" not in info["adaptors"] or \
+            not set(info["adaptors"]) <= {"iter", "into_iter", "enumerate", "deref", "as_slice"}:
+        return None
+    base = E.ap_operand(fa, info["base"])
+    if base is None:
+        return None
+    return ("const", 0), ("call", "len", [("ap", base)], -1)
+
+
 def run(ctx):
     crate = ctx.facts("A").lib
     E = Effects(crate)
@@ -113,7 +136,7 @@ def run(ctx):
     for b, e, t in idxs:
         e0 = strip_casts(e)
         txt = show(e0)
-        rng = _range_of(fa, S, e0)
+        rng = _range_of(fa, S, e0) or _enum_range(E, fa, t["args"][1])
         if rng is not None:
             kinds.setdefault("lex", []).append((b, "i", rng))
             continue
